@@ -84,7 +84,7 @@ func Start(store, dir string) (*Server, error) {
 	}
 	s.Srv = srv
 	s.URL = "http://" + srv.Addr
-	s.HC = &http.Client{Timeout: 30 * time.Second, Transport: &http.Transport{DisableCompression: true, MaxIdleConnsPerHost: 4},
+	s.HC = &http.Client{Timeout: 12 * time.Second, Transport: &http.Transport{DisableCompression: true, MaxIdleConnsPerHost: 4},
 		CheckRedirect: func(*http.Request, []*http.Request) error { return http.ErrUseLastResponse }}
 	return s, nil
 }
